@@ -21,7 +21,7 @@ two bytes with STUFF_SEQUENCE, and what is kept for the next call is the tail of
 NOT decided: tiling as an equality of concatenations over all streams and read schedules (value-level).
 """
 
-ASSUMPTIONS = ['ByteArena::read_n semantics (C17)', 'find_stuff_sequence returns the first FE FD position (value-level, not decided)']
+ASSUMPTIONS = ['ByteArena::read_n semantics (C17)']
 
 FLOORS = {'R8.1': 7, 'R8.2': 4, 'R8.3': 3, 'R8.4': 5}
 
@@ -289,6 +289,8 @@ def r8_4(cx):
     kept = [pos for pos, pl, rv in fn.stores() if len(pl['p']) == 2 and pl['p'][1].get('n') == 'buf' and rv is not None
             and any(c.pos == s.pos for c in fn.rvalue_expr(rv).calls(ASLICE + '::split_at')) and fn.rvalue_expr(rv).strip().kind == 'proj'
             and fn.rvalue_expr(rv).strip().info.get('i') == 1]
+    from . import c02
+    c02.check_find_stuff(cx)
     cx.check(len(kept) == 1, 'tail-kept', fn, None, 'self.buf := split_at(split_pos).1', fail_detail='the tail of the split is not what is kept for the next call')
 
 
